@@ -154,6 +154,10 @@ def gen_solve_problem(r, env, Ls, integ=None, stiff=False, big_hstart=False, con
         ov = {}
         if big_hstart or r.chance(0.5):
             ov["h_start"] = r.logu(1e1, 1e5) if big_hstart else r.logu(1e-3, 1e4)
+        if r.chance(0.2):
+            # user-edited parameter set: any pattern of re-used function evaluations (stage 0 always evaluates)
+            st = env["ros"][pname]["stages"]
+            ov["new_function_evaluation"] = [True] + [r.chance(0.5) for _ in range(5)]
         ptoks = G.ros_param_tokens(env["ros"][pname], ov)
     else:
         ptoks = G.be_param_tokens(env["be"])
@@ -665,7 +669,19 @@ def g_c10(r, tier, env, Ls):
     return cs
 
 def hist_prefix(p):
-    return ["hist", str(p["integ"]), str(p["L"]), str(p["csc"]), str(p["kind"]), str(p["ncell"]), str(p["ns"])] + G.mech_tokens(p["rx"]) + p["ptoks"]
+    # the second solver of the history (other integrator / other coefficient set) follows the first one's parameters
+    return (["hist", str(p["integ"]), str(p["L"]), str(p["csc"]), str(p["kind"]), str(p["ncell"]), str(p["ns"])] + G.mech_tokens(p["rx"]) + p["ptoks"]
+            + [str(p.get("integ2", 1))] + p.get("ptoks2", None or G.be_param_tokens(DEFAULT_BE)))
+
+DEFAULT_BE = {"small": 1e-40, "h_start": 0.0, "max_number_of_steps": 11, "time_step_reductions": [0.5, 0.5, 0.5, 0.5, 0.1]}
+
+def second_solver(r, env, p):
+    """attach a second solver description to problem p: the other integrator, or Rosenbrock with another coefficient set"""
+    if r.chance(0.5):
+        p["integ2"] = 1; p["ptoks2"] = G.be_param_tokens(env["be"])
+    else:
+        p["integ2"] = 0; p["ptoks2"] = G.ros_param_tokens(env["ros"][r.pick(ROS_NAMES)])
+    return p
 
 def problem_ops(r, p, s):
     """ops that load a problem into state s and solve it"""
@@ -1022,15 +1038,18 @@ def g_c17(r, tier, env, Ls):
     for gid in range(n):
         p = gen_solve_problem(r, env, Ls, stiff=r.chance(0.4))
         p["perm"] = list(range(p["ns"]))
+        second_solver(r, env, p)
         ops = [["new", "0"]] + problem_ops(r, p, 0)[:-1]      # state 0 holds a problem, not yet solved
         live = {0}
         nxt = 1
+        if r.chance(0.6):                                      # a State of the second solver is alive too
+            ops += [["new2", "1"]] + problem_ops(r, p, 1)[:-1]; live.add(1); nxt = 2
         for _ in range(r.rng(2, 10)):
             z = r.below(7)
             s = r.pick(sorted(live))
-            if z <= 1 and nxt < 8:
+            if z <= 1 and nxt < 7:
                 ops.append([r.pick(["cpc", "cpa"]), str(s), str(nxt)]); live.add(nxt); nxt += 1
-            elif z == 2 and nxt < 8:
+            elif z == 2 and nxt < 7:
                 ops.append([r.pick(["mvc", "mva"]), str(s), str(nxt)]); live.discard(s); live.add(nxt); nxt += 1
             elif z == 3 and len(live) > 1:
                 d = r.pick(sorted(live - {s}))
